@@ -632,6 +632,13 @@ Inductive tmode := MSingle | MAdvanced.
 (* TaborProgram.__init__ (the repaired code also encapsulates a root whose count is volatile) *)
 Definition root_enc (t : prog) : bool := (1 <? cnt t) || is_vol (rep_of t) || (depth t =? 0).
 
+(* setup_advanced_sequence_mode up to the parser: flatten_and_balance(2), then prepare_program_for_advanced_sequence_mode *)
+Definition adv_tables (fuel : nat) (mn mx : Z) (t1 : prog) : result (list prog * bool * list dec) :=
+  match fab fuel 2 (kids t1) false with
+  | Err k => Err k
+  | Ok (ch, w1) => prepare fuel mn mx 0 ch w1
+  end.
+
 Definition tabor_compile (fuel : nat) (mode : option tmode) (mn mx : Z) (t : prog)
   : result (tstate * bool * list dec) :=
   if negb (counts_ok t) then Err EFail else
@@ -640,23 +647,20 @@ Definition tabor_compile (fuel : nat) (mode : option tmode) (mn mx : Z) (t : pro
   match md with
   | MSingle =>
       if (depth t1 =? 1) && balanced t1 then
-        match parse_single t1 with Err k => Err k | Ok st => Ok (st, false, [DRoot (root_enc t)]) end
+        if mx <? len t1 then Err ETabor        (* C16 repair ca0716c: SINGLE mode checks max_seq_len *)
+        else match parse_single t1 with Err k => Err k | Ok st => Ok (st, false, [DRoot (root_enc t)]) end
       else Err EAssert
   | MAdvanced =>
       if (1 <? depth t1) && (cnt t1 =? 1) then
-        match fab fuel 2 (kids t1) false with
+        match adv_tables fuel mn mx t1 with
         | Err k => Err k
-        | Ok (ch, w1) =>
-            match prepare fuel mn mx 0 ch w1 with
-            | Err k => Err k
-            | Ok (tabs, w2, tr) =>
-                if forallb (fun tl => (mn <=? len tl) && (len tl <=? mx)) tabs then
-                  match parse_aseq 0 tabs (mkT [] [] [] [] false) with
-                  | Err k => Err k
-                  | Ok st => Ok (st, w2, DRoot (root_enc t) :: tr)
-                  end
-                else Err EAssert
-            end
+        | Ok (tabs, w2, tr) =>
+            if forallb (fun tl => (mn <=? len tl) && (len tl <=? mx)) tabs then
+              match parse_aseq 0 tabs (mkT [] [] [] [] false) with
+              | Err k => Err k
+              | Ok st => Ok (st, w2, DRoot (root_enc t) :: tr)
+              end
+            else Err EAssert
         end
       else Err EAssert
   end.
